@@ -722,9 +722,9 @@ func (s *state) evalExpr(exp parse.Expr) (v Value, e error) {
 		case parse.OpBinaryConcat:
 			return CoerceString(left) + CoerceString(right), nil
 		case parse.OpBinaryEndsWith:
-			return strings.HasSuffix(CoerceString(left), CoerceString(right)), nil
+			return textual(left) && textual(right) && strings.HasSuffix(CoerceString(left), CoerceString(right)), nil
 		case parse.OpBinaryStartsWith:
-			return strings.HasPrefix(CoerceString(left), CoerceString(right)), nil
+			return textual(left) && textual(right) && strings.HasPrefix(CoerceString(left), CoerceString(right)), nil
 		case parse.OpBinaryIn:
 			return Contains(right, left)
 		case parse.OpBinaryNotIn:
@@ -1015,6 +1015,20 @@ func (s *state) callMacro(macro macroDef, args ...Value) (Value, error) {
 		return nil, err
 	}
 	return buf.String(), nil
+}
+
+// textual reports whether v can be the beginning, the end or a part of a
+// string: a string or a number can; null, a boolean, a list or a struct
+// cannot, although each of them coerces to the empty string.
+func textual(v Value) bool {
+	v = withoutSafe(v)
+	if _, boolean := v.(Boolean); v == nil || boolean || reflect.ValueOf(v).Kind() == reflect.Bool {
+		return false
+	}
+	if r := reflect.ValueOf(v); r.Kind() == reflect.Ptr && r.IsNil() {
+		return false // as good as null
+	}
+	return !isContainer(v) && !isOpaque(v)
 }
 
 // orderedAsStrings reports whether < <= > >= compare the two values as
